@@ -425,6 +425,17 @@ def canon_attr(base, name):
 _ARRAY_METHODS = {"sum", "prod", "max", "min", "mean", "std", "var", "all", "any", "cumsum", "cumprod", "argmax", "argmin", "argsort", "ravel", "nonzero"}
 
 
+def _boolish(t):
+    """a term whose value is a truth value / boolean array whatever its operands are"""
+    if t[0] in ("cmp", "not", "isnone", "and", "or"):
+        return True
+    if t[0] == "bin" and t[1] in ("&", "|"):
+        return _boolish(t[2]) and _boolish(t[3])
+    if t[0] == "call" and t[1][0] == "global" and t[1][1] in ("numpy.isnan", "numpy.isfinite", "numpy.isinf", "numpy.isin", "numpy.logical_not", "numpy.isclose"):
+        return True
+    return False
+
+
 def canon_call(func, args, kws):
     func = strip_none(func)
     kwd = dict(kws)
@@ -470,6 +481,21 @@ def canon_call(func, args, kws):
 
     if func[0] == "global" and func[1] in _CMP_FUNCS and len(args) == 2 and not kws:
         return CMP(_CMP_FUNCS[func[1]], args[0], args[1])
+    # np.logical_and(a, b), np.logical_and.reduce([a, b, c]), functools.reduce(np.logical_and, (a, b, c)) of truth-valued
+    # operands are a & b & c (same for or / |)
+    for fname, op in (("numpy.logical_and", "&"), ("numpy.logical_or", "|")):
+        items = None
+        if func == G(fname) and len(args) == 2 and not kws:
+            items = tuple(args)
+        elif func in (("attr", G(fname), "reduce"), G(fname + ".reduce")) and len(args) == 1 and not kws:
+            items = _seq_items(args[0])
+        elif func == G("functools.reduce") and len(args) == 2 and not kws and args[0] == G(fname):
+            items = _seq_items(args[1])
+        if items is not None and len(items) >= 2 and all(_boolish(x) for x in items):
+            out = items[0]
+            for x in items[1:]:
+                out = ("bin", op, out, x)
+            return out
     # expand *tuple
     if any(a[0] == "star" for a in args):
         new = []
@@ -1268,7 +1294,11 @@ class TermBuilder:
             rets = [n for n in _own_walk(node) if isinstance(n, ast.Return)]
             if not rets or len(rets) > 4 or any(r_.value is None for r_ in rets):
                 return None
-            if any(isinstance(n, (ast.For, ast.While, ast.Try, ast.With)) for n in _own_walk(node)):
+            if any(isinstance(n, (ast.For, ast.While, ast.With)) for n in _own_walk(node)):
+                return None
+            # a validating try statement (every handler ends by raising, no return inside) does not choose the result
+            if any(isinstance(n, ast.Try) and (n.finalbody or n.orelse or any(isinstance(r_, ast.Return) for r_ in ast.walk(n))
+                                               or not all(h.body and isinstance(h.body[-1], ast.Raise) for h in n.handlers)) for n in _own_walk(node)):
                 return None
             if any(isinstance(n, (ast.Yield, ast.YieldFrom)) for n in ast.walk(node)):
                 return None
